@@ -150,6 +150,23 @@ def check_class(findings, detail, editor, klass, pattern, words, prefix='', ctx_
                 return
 
 
+def check_end_pattern(findings, detail, editor, where, pattern, operations):
+    """The look-ahead that ends an instruction's operand region must fire in front of every operation mnemonic
+    (instructions and macros alike), otherwise the second operation on a line is classified as an operand."""
+    try:
+        rx = re.compile(pattern)
+    except re.error as e:
+        findings.append(Finding(f'C20/{editor}/{where}-pattern-does-not-compile', dict(detail, pattern=pattern, error=str(e))))
+        return
+    for w in sorted(operations):
+        text = 'a, 5 ' + w + ' 7'
+        idx = 5
+        if not any(m.start() == idx for m in rx.finditer(text)):
+            findings.append(Finding(f'C20/{editor}/operation-not-recognised-as-start-of-next-statement',
+                                    dict(detail, where=where, pattern=pattern, word=w)))
+            return
+
+
 def execute(case, ctx):
     cfg = isagen.fix_int_keys(copy.deepcopy(case['isa']))
     isa = R.Isa(cfg)
@@ -201,6 +218,9 @@ def execute(case, ctx):
         if gram is not None:
             rep = gram['repository']
             check_class(findings, detail, 'vscode', 'instruction', rep['instructions']['begin'], mnemonics)
+            check_end_pattern(findings, detail, 'vscode', 'instructions.end', rep['instructions']['end'], mnemonics + macros)
+            if macros and 'macros' in rep:
+                check_end_pattern(findings, detail, 'vscode', 'macros.end', rep['macros']['end'], mnemonics + macros)
             if macros:
                 if 'macros' not in rep:
                     findings.append(Finding('C20/vscode/macro-pattern-missing', detail))
@@ -266,6 +286,9 @@ def execute(case, ctx):
                         check_class(findings, detail, 'sublime', 'macro', it['match'], macros)
             if macros and not got_macro:
                 findings.append(Finding('C20/sublime/macro-pattern-missing', detail))
+            for rule in c.get('pop_instruction_end', []):
+                if rule.get('name') == 'instructions':
+                    check_end_pattern(findings, detail, 'sublime', 'pop_instruction_end', rule['match'], mnemonics + macros)
             if registers:
                 if 'registers' not in c:
                     findings.append(Finding('C20/sublime/register-pattern-missing', detail))
